@@ -269,3 +269,65 @@ Proof.
     split; [exact QD|]. split; [exact SD1|]. split; [exact SD2|]. split; [exact SD3|].
     split; [reflexivity|]. unfold r4. cbn [tbl release_reserved set_limits]. exact TS3.
 Qed.
+
+Lemma set_get_sec m sec : 0 <= sec <= 3 -> set_sec m sec (get_sec m sec) = m.
+Proof.
+  intros H. destruct m. assert (sec = 0 \/ sec = 1 \/ sec = 2 \/ sec = 3) as [Hs|[Hs|[Hs|Hs]]] by lia; subst sec; reflexivity.
+Qed.
+
+Lemma fold_apply_d_eq sec ds m : 0 <= sec <= 3 ->
+  fold_left (apply_d sec false) ds m = set_sec m sec (fold_left step_sec ds (get_sec m sec)).
+Proof.
+  intros Hs. destruct (fold_apply_d sec Hs ds m) as [E|E]; [exact E|].
+  subst ds. cbn [fold_left]. symmetry. apply set_get_sec. exact Hs.
+Qed.
+
+Lemma section_rebuilt sec l ds m :
+  1 <= sec <= 3 -> SecDesc l ds -> Forall wf_rrset l -> keys_fresh [] l -> get_sec m sec = [] ->
+  exists l', Forall2 rrset_equiv l' l /\ fold_left (apply_d sec false) ds m = set_sec m sec l'.
+Proof.
+  intros Hs SD WF KF HE. rewrite fold_apply_d_eq by lia. rewrite HE.
+  destruct (regroup_sec l ds [] [] SD WF (Forall2_nil _) KF) as (l' & EQ & E).
+  exists l'. split; [exact EQ|]. rewrite E. reflexivity.
+Qed.
+
+Theorem render_parse_lemma m ms rp w :
+  WfMsg m -> mtsig m = None -> to_wire m None ms rp false 0 = Ok w ->
+  exists m', from_wire w None po0 = Ok m' /\ msg_equiv m' m.
+Proof.
+  intros WF NT H. unfold to_wire in H. apply bind_ok in H. destruct H as (r & HR & H). injection H as <-.
+  destruct (render_structure m ms rp r WF NT HR)
+    as (qs & ds1 & ds2 & ds3 & owner' & wb & body & e0 & e1 & e2 & e3 & Eo & Hid & Hfl & L0 & L1 & L2 & L3 &
+        QC & C1 & C2 & C3 & QD & SD1 & SD2 & SD3 & HO & _).
+  destruct WF as [W0 WQ WA WU WD KA KU KD WO].
+  exists (read_result (mid m) (mflags m) qs ds1 ds2 ds3 (mopt m)). split.
+  - rewrite Eo in *. eapply read_structure; try eassumption.
+    + apply SecDesc_ordinary with (l := man m); assumption.
+    + apply SecDesc_ordinary with (l := mau m); assumption.
+    + apply SecDesc_ordinary with (l := mad m); assumption.
+    + destruct (mopt m) as [o'|]; [|exact HO]. destruct HO as (A & B & C).
+      split; [exact A|]. split; [exact B|]. split; [exact C|exact WO].
+  - unfold read_result.
+    set (m0 := mkMsg (mid m) (mflags m) [] [] [] [] None None).
+    destruct (fold_add_q_keeps qs m0) as (Q1 & Q2 & Q3 & Q4 & Q5 & Q6 & Q7).
+    set (m1 := fold_left add_q qs m0) in *.
+    assert (G1 : get_sec m1 1 = []) by (unfold get_sec; cbn [Z.eqb Pos.eqb]; rewrite Q2; reflexivity).
+    destruct (section_rebuilt 1 (man m) ds1 m1 ltac:(lia) SD1 WA KA G1) as (l1 & EQ1 & E1).
+    rewrite E1. set (m2 := set_sec m1 1 l1).
+    assert (G2 : get_sec m2 2 = []) by (unfold m2, get_sec, set_sec; cbn [Z.eqb Pos.eqb mau]; rewrite Q3; reflexivity).
+    destruct (section_rebuilt 2 (mau m) ds2 m2 ltac:(lia) SD2 WU KU G2) as (l2 & EQ2 & E2).
+    rewrite E2. set (m3 := set_sec m2 2 l2).
+    assert (G3 : get_sec m3 3 = []) by (unfold m3, m2, get_sec, set_sec; cbn [Z.eqb Pos.eqb mad]; rewrite Q4; reflexivity).
+    destruct (section_rebuilt 3 (mad m) ds3 m3 ltac:(lia) SD3 WD KD G3) as (l3 & EQ3 & E3).
+    rewrite E3. set (m4 := set_sec m3 3 l3).
+    assert (F : mid m4 = mid m /\ mflags m4 = mflags m /\ mq m4 = mq m1 /\ man m4 = l1 /\ mau m4 = l2 /\ mad m4 = l3 /\ mopt m4 = None).
+    { unfold m4, m3, m2. cbn [mid mflags mq man mau mad mopt set_sec Z.eqb Pos.eqb]. rewrite Q5, Q6, Q1. auto 10. }
+    destruct F as (F1 & F2 & F3 & F4 & F5 & F6 & F7).
+    assert (QE : Forall2 q_equiv (mq m1) (mq m)).
+    { rewrite Q7. cbn [mq m0 app]. clear - QD. induction QD as [|rs q l qs (A & B & C & D) _ IH]; cbn [map]; constructor; [|exact IH].
+      unfold q_equiv. cbn [rname rclass rtype rcovers rdeleting rttl rrds]. auto 10. }
+    destruct (mopt m) as [o'|] eqn:EO.
+    + unfold msg_equiv. cbn [mid mflags mq man mau mad mopt set_opt]. rewrite F1, F2, F3, F4, F5, F6, EO.
+      repeat split; try assumption.
+    + unfold msg_equiv. rewrite F1, F2, F3, F4, F5, F6, F7, EO. repeat split; assumption.
+Qed.
